@@ -42,6 +42,23 @@ Inductive anycase := CBase (c : Tie.Compart.case_t) | CVacc (c : vcase_t).
 Definition check_any (c : anycase) : bool :=
   match c with CBase c => Tie.Compart.check_case c | CVacc c => vcheck_case c end.
 
+Definition vcheck_case_nomarks (c : vcase_t) : bool :=
+  let r := vmodel_run c in
+  let w := world (r_final r) in
+  let b := vw_base w in
+  vo_ok c && negb (r_stuck r)
+  && list_eqb h_eqb (handlers_of (r_out r)) (vo_handlers c)
+  && list_eqb t_eqb (taps_of (r_out r)) (vo_taps c)
+  && forallb (fun nc => opt_eqb Z.eqb (getc (cw_st b) (fst nc)) (Some (snd nc))) (vo_final_comp c)
+  && Nat.eqb (length (vo_final_comp c)) (length (st_nodes (cw_st b)))
+  && list_eqb (list_eqb Kernel.elem_eqb) (loci (r_final r)) (vo_final_loci c)
+  && forallb (fun cn => Nat.eqb (count_in (cw_st b) (fst cn)) (snd cn)) (vo_counts c)
+  && Nat.eqb (length (v_gate c) - length (vw_gate w)) (vo_gate_used c)
+  && qapprox (r_time r) (vo_time c) && Nat.eqb (r_events r) (vo_events c)
+  && (negb (v_sync c) || Nat.eqb (r_steps r) (vo_steps c)).
+Definition check_any_nomarks (c : anycase) : bool :=
+  match c with CBase c => Tie.Compart.check_case_nomarks c | CVacc c => vcheck_case_nomarks c end.
+
 Definition vdiagnose (c : vcase_t) : list bool :=
   let r := vmodel_run c in
   let w := world (r_final r) in
